@@ -700,7 +700,7 @@ class RsInterp:
         m = e['m']
         recv_e = e['recv']
         # mutating methods need the place of the receiver
-        if m in ('push', 'pop', 'clear', 'next', 'take'):
+        if m in ('push', 'pop', 'clear', 'next', 'take', 'remove'):
             pl = None
             try:
                 pl = self.place(recv_e, env)
@@ -717,7 +717,21 @@ class RsInterp:
         args = [self.ev(a, env) for a in e['args']]
         return self.method(recv, m, args, env)
 
+    def vec_remove(self, pl, cur, idx):
+        i = self.zint(idx)
+        if cur.kind == 'claims':
+            ln = spec.ml_len(cur.t)
+            if not self.ctx.branch(z3.And(i >= 0, i < ln), 'remove: index in range'):
+                self.panic('remove out of range')
+            j = ln - 1 - i          # claims are kept top (= last pushed) first
+            v = SV(spec.ml_nth(cur.t, j), 'mpat')
+            pl.set(SV(spec.ml_remove_at(cur.t, j), 'claims'))
+            return v
+        raise Unsupported(f'remove on {cur.kind}')
+
     def mut_method(self, pl, cur, m, args):
+        if m == 'remove' and isinstance(cur, SV):
+            return self.vec_remove(pl, cur, self.deref(args[0]))
         if isinstance(cur, RIter):
             if m == 'next':
                 return self.iter_next(cur, pl)
@@ -826,6 +840,14 @@ class RsInterp:
                 return self.list_hof(recv, m, self.deref(args[0]))
         if isinstance(recv, tuple) and recv and recv[0] == 'take' and m == 'for_each':
             return self.take_for_each(recv[1], recv[2], self.deref(args[0]), env)
+        if isinstance(recv, tuple) and recv and recv[0] == 'take' and m == 'collect':
+            # iterator.take(n).collect(): up to n elements -- silently fewer when the input ends
+            it = self.deref(recv[1].get())
+            if isinstance(it, RIter) and isinstance(it.rest, SV) and it.rest.kind == 'idl':
+                n = self.zint(recv[2])
+                lst = spec.il_take(n, it.rest.t)
+                it.rest = SV(spec.il_drop(n, it.rest.t), 'idl')
+                return SV(lst, 'idl')
         if isinstance(recv, RIter) and m == 'next':
             return self.iter_next(recv)
         if isinstance(recv, RIter) and m in ('position', 'find', 'any', 'all'):
